@@ -10,6 +10,7 @@ import (
 	"path/filepath"
 	"strings"
 	"sync"
+	"runtime"
 	"sync/atomic"
 	"syscall"
 	"time"
@@ -198,7 +199,9 @@ func withinBounds(c *CfgCase) bool {
 			if a != nil && b != nil {
 				ua := uint32(a[0])<<24 | uint32(a[1])<<16 | uint32(a[2])<<8 | uint32(a[3])
 				ub := uint32(b[0])<<24 | uint32(b[1])<<16 | uint32(b[2])<<8 | uint32(b[3])
-				if ub > ua && ub-ua > 1<<20 {
+				// the whole address space is let through (a few times per process: 512 MB of bitmap each):
+				// its size does not fit in 32 bits
+				if ub > ua && ub-ua > 1<<20 && !(ub-ua == 0xffffffff && c19Whole.Add(1) <= 6) {
 					return false
 				}
 			}
@@ -241,6 +244,9 @@ func GenCfg(t *rapid.T) CfgCase {
 			tok = strings.ReplaceAll(strings.ReplaceAll(tok, " ", "_"), "\t", "_")
 		}
 		c.Args = append(c.Args, tok)
+	}
+	if pp.name == "range" && len(c.Args) >= 4 && rapid.IntRange(0, 39).Draw(t, "whole-space") == 0 {
+		c.Args[1], c.Args[2] = "0.0.0.0", "255.255.255.255"
 	}
 	return c
 }
@@ -315,6 +321,8 @@ var (
 	bat6 = battery6()
 )
 
+var c19Whole atomic.Int64
+
 func fdLeft() bool {
 	var l syscall.Rlimit
 	if syscall.Getrlimit(syscall.RLIMIT_NOFILE, &l) != nil {
@@ -332,6 +340,11 @@ func ExecCfg(c CfgCase) (res core.Result) {
 	if !withinBounds(&c) {
 		res.Skipped = "resource-bound"
 		return
+	}
+	whole := false
+	if c.Plugin == "range" && len(c.Args) >= 3 && c.Args[1] == "0.0.0.0" && c.Args[2] == "255.255.255.255" {
+		whole = true
+		defer runtime.GC()
 	}
 	if (c.Plugin == "range" && !fdLeft()) || (c.Plugin == "file" && len(c.Args) > 1 && c.Args[1] == "autorefresh" && c19Watch.Load() >= 5) {
 		res.Skipped = "fd-or-inotify-budget"
@@ -382,6 +395,9 @@ func ExecCfg(c CfgCase) (res core.Result) {
 		return
 	}
 	res.Classes = []string{c.Plugin + "/" + fam + "/accepted"}
+	if whole {
+		res.Classes = append(res.Classes, "range:whole-ipv4-space")
+	}
 	res.NonTrivial = true
 	if c.V6 {
 		for i, w := range bat6 {
